@@ -53,6 +53,8 @@ class Collector:
             self.label(lab)
         for k, v in info.get("excluded", {}).items():
             self.excluded[k] = self.excluded.get(k, 0) + v
+        for k, v in info.get("known", {}).items():
+            self.known[k] = self.known.get(k, 0) + v
         if info.get("nontrivial"):
             h = case_hash(case)
             if h not in self.nontrivial:
